@@ -201,7 +201,7 @@ impl<'a> Hist<'a> {
                 _ => false,
             };
             if !verdict {
-                bad.push(format!("perm{:?}", p));
+                bad.push(format!("perm{:?}{}", p, if r.is_err() { " panicked" } else { "" }));
             }
         }
         self.out.fact("C03", "permutation-invariance", bad.is_empty(), &bad.join(" "));
@@ -231,6 +231,9 @@ impl<'a> Hist<'a> {
                 }
                 let _ = melvm::verif_hooks::take_log();
                 let same = ok && dump_unsealed(&c, &self.w.names) == **d;
+                if !same && std::env::var("VERIF_TRACE").is_ok() {
+                    eprintln!("TRACE batch-equals-sequential differs\n  batch: {}\n  seq:   {}", d, dump_unsealed(&c, &self.w.names));
+                }
                 self.out.fact("C03", "batch-equals-sequential", same, &format!("order{:?} all-accepted={}", order, ok));
             }
         }
@@ -627,6 +630,9 @@ impl<'a> Hist<'a> {
             if let Some((tx, label)) = self.gen_tx(r, &scratch_name, em_here) {
                 let mut sc = self.w.unsealed.get(&scratch_name).unwrap().clone();
                 self.w.names.reg_tx(&tx);
+                if std::env::var("VERIF_TRACE").is_ok() {
+                    eprintln!("TRACE scratch apply_tx [{}] {:?}", label, tx);
+                }
                 if silent(|| sc.apply_tx(&tx)).map(|r| r.is_ok()).unwrap_or(false) {
                     self.w.unsealed.insert(scratch_name.clone(), sc);
                 }
@@ -1085,9 +1091,22 @@ pub fn mutate_block(r: &mut Rng, b: &mut Block, h: &mut Hist, pre_mult: u128, ti
 pub fn run(r: &mut Rng, n: usize, em: &Emphasis, out: &mut Out) -> BTreeMap<String, u64> {
     crate::txgen::TWINS.store(em.twins, std::sync::atomic::Ordering::Relaxed);
     let mut stats = BTreeMap::new();
-    for _ in 0..n {
+    // VERIF_HISTORY_RNG=<u64> replays the single history that started from that fork seed (the fork seed of every
+    // history is appended, flushed, to $VERIF_HISTORY_LOG so that a run killed by an abort can be replayed)
+    let only: Option<u64> = std::env::var("VERIF_HISTORY_RNG").ok().and_then(|v| v.parse().ok());
+    let mut log = std::env::var("VERIF_HISTORY_LOG").ok().and_then(|p| std::fs::OpenOptions::new().create(true).append(true).open(p).ok());
+    for i in 0..(if only.is_some() { 1 } else { n }) {
         let mut w = World::new();
-        let mut rr = r.fork();
+        let fork_seed = match only {
+            Some(v) => v,
+            None => r.next(),
+        };
+        if let Some(f) = log.as_mut() {
+            use std::io::Write;
+            let _ = writeln!(f, "{} {} {}", i, fork_seed, out.lines);
+            let _ = f.flush();
+        }
+        let mut rr = Rng::new(fork_seed);
         history(&mut rr, &mut w, out, em, &mut stats);
         out.emit("reset", "ok");
     }
